@@ -86,6 +86,9 @@ const c09Builtins = `
  * @param? y
  */
 {template .zzEcho}[{$x ?: ''}|{$y ?: ''}]{/template}
+
+/** @param n */
+{template .zzDeep}{if $n > 0}{$n % 10}{call .zzDeep}{param n: $n - 1 /}{/call}{/if}{/template}
 `
 
 func runC09(c C09Case, rounds int, rec *recorder) error {
@@ -97,6 +100,8 @@ func runC09(c C09Case, rounds int, rec *recorder) error {
 		}
 		c.Prog.AllData[c.Prog.Prog.Files[0].Namespace+".zzBuiltins"] = nil
 		// (one data map, with a nested map, shared by every goroutine that renders this template)
+		// (a few hundred nested calls: many renders in flight hold thousands of call levels between them)
+		c.Prog.AllData[c.Prog.Prog.Files[0].Namespace+".zzDeep"] = map[string]ref.Value{"n": ref.I(300)}
 		c.Prog.AllData[c.Prog.Prog.Files[0].Namespace+".zzShared"] = map[string]ref.Value{"opts": ref.M(map[string]ref.Value{"y": ref.S("why")})}
 	}
 	cb, err, pn := compileBundle(names, srcs, c.Prog.Prog.Globals)
